@@ -37,20 +37,25 @@ impl Opts {
 }
 
 // ------------------------------------------------------------------ running the implementation
-fn quiet_panics() { std::panic::set_hook(Box::new(|_| {})); }
+static QUIET: std::sync::atomic::AtomicBool = std::sync::atomic::AtomicBool::new(false);
+fn quiet(b: bool) { QUIET.store(b, std::sync::atomic::Ordering::SeqCst); }
+fn quiet_panics() { let old = std::panic::take_hook(); std::panic::set_hook(Box::new(move |i| { if !QUIET.load(std::sync::atomic::Ordering::SeqCst) { old(i) } })); }
 fn panic_msg(e: Box<dyn std::any::Any + Send>) -> String {
     if let Some(s) = e.downcast_ref::<&str>() { s.to_string() } else if let Some(s) = e.downcast_ref::<String>() { s.clone() } else { "?".into() }
 }
 fn serialise(quads: &[Q], o: &Opts) -> Result<String, String> {
     let quads = quads.to_vec();
     let o = *o;
-    match std::panic::catch_unwind(move || {
+    quiet(true);
+    let res = std::panic::catch_unwind(move || {
         let mut ser = JsonLdStringifier::new_stringifier_with_options(o.build());
         match ser.serialize_dataset(&quads) {
             Ok(_) => Ok(ser.as_utf8().to_vec()),
             Err(e) => Err(format!("serializer error: {e}")),
         }
-    }) {
+    });
+    quiet(false);
+    match res {
         Ok(Ok(b)) => String::from_utf8(b).map_err(|_| "output is not UTF-8".to_string()),
         Ok(Err(e)) => Err(e),
         Err(e) => Err(format!("PANIC in serializer: {}", panic_msg(e))),
@@ -71,7 +76,8 @@ fn to_st<T: Term>(t: T) -> ST {
 fn parse_back(txt: &str, o: &Opts) -> Result<Vec<Q>, String> {
     let txt = txt.to_string();
     let o = *o;
-    match std::panic::catch_unwind(move || {
+    quiet(true);
+    let res = std::panic::catch_unwind(move || {
         let p = JsonLdParser::new_with_options(o.build());
         let mut out: Vec<Q> = vec![];
         let mut src = p.parse_str(&txt);
@@ -79,10 +85,124 @@ fn parse_back(txt: &str, o: &Opts) -> Result<Vec<Q>, String> {
             Ok(()) => Ok(out),
             Err(e) => Err(format!("parse error: {e}")),
         }
-    }) {
+    });
+    quiet(false);
+    match res {
         Ok(r) => r,
         Err(e) => Err(format!("PANIC in parser: {}", panic_msg(e))),
     }
+}
+
+// ------------------------------------------------------------------ a small JSON reader
+#[derive(Clone, Debug, PartialEq)]
+enum J { Null, Bool(bool), Num(String), Str(String), Arr(Vec<J>), Obj(Vec<(String, J)>) }
+struct JP<'a> { s: &'a [u8], i: usize }
+impl<'a> JP<'a> {
+    fn ws(&mut self) { while self.i < self.s.len() && matches!(self.s[self.i], b' ' | b'\n' | b'\r' | b'\t') { self.i += 1; } }
+    fn eat(&mut self, c: u8) -> Result<(), String> { self.ws(); if self.s.get(self.i) == Some(&c) { self.i += 1; Ok(()) } else { Err(format!("expected {:?} at {}", c as char, self.i)) } }
+    fn hex4(&mut self) -> Result<u32, String> { let h = std::str::from_utf8(self.s.get(self.i..self.i + 4).ok_or("short \\u")?).map_err(|e| e.to_string())?; self.i += 4; u32::from_str_radix(h, 16).map_err(|e| e.to_string()) }
+    fn string(&mut self) -> Result<String, String> {
+        self.eat(b'"')?; let mut out: Vec<u8> = vec![];
+        loop {
+            let c = *self.s.get(self.i).ok_or("unterminated string")?; self.i += 1;
+            match c {
+                b'"' => break,
+                b'\\' => { let e = *self.s.get(self.i).ok_or("bad escape")?; self.i += 1;
+                    let ch = match e { b'n' => '\n', b'r' => '\r', b't' => '\t', b'b' => '\u{8}', b'f' => '\u{c}', b'/' => '/', b'\\' => '\\', b'"' => '"',
+                        b'u' => { let mut cp = self.hex4()?; if (0xD800..0xDC00).contains(&cp) && self.s.get(self.i..self.i + 2) == Some(b"\\u") { self.i += 2; let lo = self.hex4()?; cp = 0x10000 + ((cp - 0xD800) << 10) + (lo - 0xDC00); } char::from_u32(cp).ok_or("bad code point")? }
+                        _ => return Err("bad escape".into()) };
+                    let mut b = [0u8; 4]; out.extend_from_slice(ch.encode_utf8(&mut b).as_bytes()); }
+                c => out.push(c),
+            }
+        }
+        String::from_utf8(out).map_err(|e| e.to_string())
+    }
+    fn value(&mut self) -> Result<J, String> {
+        self.ws();
+        match *self.s.get(self.i).ok_or("unexpected end")? {
+            b'{' => { self.i += 1; let mut v = vec![]; self.ws(); if self.s.get(self.i) == Some(&b'}') { self.i += 1; return Ok(J::Obj(v)); }
+                loop { self.ws(); let k = self.string()?; self.eat(b':')?; let x = self.value()?; v.push((k, x)); self.ws(); match self.s.get(self.i) { Some(b',') => self.i += 1, Some(b'}') => { self.i += 1; return Ok(J::Obj(v)); } _ => return Err(format!("bad object at {}", self.i)) } } }
+            b'[' => { self.i += 1; let mut v = vec![]; self.ws(); if self.s.get(self.i) == Some(&b']') { self.i += 1; return Ok(J::Arr(v)); }
+                loop { v.push(self.value()?); self.ws(); match self.s.get(self.i) { Some(b',') => self.i += 1, Some(b']') => { self.i += 1; return Ok(J::Arr(v)); } _ => return Err(format!("bad array at {}", self.i)) } } }
+            b'"' => Ok(J::Str(self.string()?)),
+            b't' if self.s[self.i..].starts_with(b"true") => { self.i += 4; Ok(J::Bool(true)) }
+            b'f' if self.s[self.i..].starts_with(b"false") => { self.i += 5; Ok(J::Bool(false)) }
+            b'n' if self.s[self.i..].starts_with(b"null") => { self.i += 4; Ok(J::Null) }
+            _ => { let st = self.i; while self.i < self.s.len() && matches!(self.s[self.i], b'0'..=b'9' | b'-' | b'+' | b'.' | b'e' | b'E') { self.i += 1; } if st == self.i { Err(format!("unexpected byte at {st}")) } else { Ok(J::Num(String::from_utf8_lossy(&self.s[st..self.i]).to_string())) } }
+        }
+    }
+}
+fn read_json(txt: &str) -> Result<J, String> { let mut p = JP { s: txt.as_bytes(), i: 0 }; let v = p.value()?; p.ws(); if p.i == txt.len() { Ok(v) } else { Err("trailing bytes".into()) } }
+/// compact text with sorted keys (the canonical form of the small rdf:JSON literals generated here)
+fn canon_json(j: &J) -> String {
+    match j {
+        J::Null => "null".into(), J::Bool(b) => b.to_string(), J::Num(n) => n.clone(), J::Str(s) => json_str(s),
+        J::Arr(v) => format!("[{}]", v.iter().map(canon_json).collect::<Vec<_>>().join(",")),
+        J::Obj(v) => { let mut v: Vec<&(String, J)> = v.iter().collect(); v.sort_by(|a, b| a.0.encode_utf16().cmp(b.0.encode_utf16())); format!("{{{}}}", v.iter().map(|(k, x)| format!("{}:{}", json_str(k), canon_json(x))).collect::<Vec<_>>().join(",")) }
+    }
+}
+impl J {
+    fn get(&self, k: &str) -> Option<&J> { if let J::Obj(v) = self { v.iter().find(|e| e.0 == k).map(|e| &e.1) } else { None } }
+    fn arr(&self) -> Result<&Vec<J>, String> { if let J::Arr(v) = self { Ok(v) } else { Err(format!("array expected, found {self:?}")) } }
+    fn str(&self) -> Result<&str, String> { if let J::Str(s) = self { Ok(s) } else { Err(format!("string expected, found {self:?}")) } }
+}
+
+// ------------------------------------------------------------------ reference reader: JSON-LD 1.1 API, "Deserialize JSON-LD to RDF",
+// restricted to the expanded/flattened shape the serializer emits (no context, no nested node objects); written from the specification
+struct RefRdf { out: Vec<Q>, fresh: usize, dir: u8 }
+impl RefRdf {
+    fn id_term(s: &str) -> ST { if let Some(l) = s.strip_prefix("_:") { bnode(l) } else { iri(s) } }
+    fn fresh(&mut self) -> ST { self.fresh += 1; bnode(&format!("L{}", self.fresh)) }
+    fn node(&mut self, n: &J, g: &Option<ST>, top: bool) -> Result<(), String> {
+        let J::Obj(entries) = n else { return Err(format!("node object expected, found {n:?}")) };
+        let id = Self::id_term(n.get("@id").ok_or("node object without @id")?.str()?);
+        for (k, v) in entries {
+            match k.as_str() {
+                "@id" => {}
+                "@type" => for t in v.arr()? { self.out.push(([id.clone(), rdf("type"), Self::id_term(t.str()?)], g.clone())); },
+                "@graph" => { if !top { return Err("@graph below the top level".into()); } for m in v.arr()? { self.node(m, &Some(id.clone()), false)?; } }
+                k if k.starts_with('@') => return Err(format!("unexpected keyword {k}")),
+                k => for item in v.arr()? { let o = self.object(item, g)?; self.out.push(([id.clone(), iri(k), o], g.clone())); },
+            }
+        }
+        Ok(())
+    }
+    fn object(&mut self, item: &J, g: &Option<ST>) -> Result<ST, String> {
+        let J::Obj(entries) = item else { return Err(format!("object expected, found {item:?}")) };
+        if let Some(l) = item.get("@list") {
+            if entries.len() != 1 { return Err("list object with other entries".into()); }
+            let items: Vec<ST> = l.arr()?.iter().map(|x| self.object(x, g)).collect::<Result<_, _>>()?;
+            let cells: Vec<ST> = items.iter().map(|_| self.fresh()).collect();
+            for i in 0..items.len() {
+                self.out.push(([cells[i].clone(), rdf("first"), items[i].clone()], g.clone()));
+                self.out.push(([cells[i].clone(), rdf("rest"), cells.get(i + 1).cloned().unwrap_or_else(|| rdf("nil"))], g.clone()));
+            }
+            return Ok(cells.first().cloned().unwrap_or_else(|| rdf("nil")));
+        }
+        if let Some(v) = item.get("@value") {
+            for (k, _) in entries { if !matches!(k.as_str(), "@value" | "@type" | "@language" | "@direction") { return Err(format!("value object with entry {k}")); } }
+            let ty = item.get("@type").map(|t| t.str()).transpose()?;
+            if ty == Some("@json") { return Ok(lit_dt(&canon_json(v), &format!("{RDF}JSON"))); }
+            let lex = v.str().map_err(|_| "non-string @value without @json (use_native_types is off)".to_string())?;
+            let lang = item.get("@language").map(|t| t.str()).transpose()?;
+            let dirn = item.get("@direction").map(|t| t.str()).transpose()?;
+            if let Some(l) = lang { if sophia_api::term::LanguageTag::new(l).is_err() { return Err(format!("@language {l:?} is not a well-formed tag")); } }
+            if let Some(d) = dirn { if d != "ltr" && d != "rtl" { return Err(format!("invalid base direction {d:?}")); } }
+            if ty.is_some() && (lang.is_some() || dirn.is_some()) { return Err("value object with both @type and @language/@direction".into()); }
+            return Ok(match (dirn, self.dir) {
+                (Some(d), 1) => lit_dt(lex, &format!("{I18N}{}_{d}", lang.unwrap_or("").to_ascii_lowercase())),
+                (Some(d), 2) => { let b = self.fresh(); self.out.push(([b.clone(), rdf("value"), plain(lex)], g.clone())); if let Some(l) = lang { self.out.push(([b.clone(), rdf("language"), plain(&l.to_ascii_lowercase())], g.clone())); } self.out.push(([b.clone(), rdf("direction"), plain(d)], g.clone())); b }
+                _ => match (lang, ty) { (Some(l), _) => lit_lang(lex, l), (None, Some(t)) => lit_dt(lex, t), (None, None) => plain(lex) },
+            });
+        }
+        if let Some(i) = item.get("@id") { if entries.len() != 1 { return Err("node reference with other entries".into()); } return Ok(Self::id_term(i.str()?)); }
+        Err(format!("unrecognised object {item:?}"))
+    }
+}
+fn reference_to_rdf(doc: &J, dir: u8) -> Result<Vec<Q>, String> {
+    let mut r = RefRdf { out: vec![], fresh: 0, dir };
+    for n in doc.arr()? { r.node(n, &None, true)?; }
+    Ok(r.out)
 }
 
 // ------------------------------------------------------------------ printing
@@ -240,7 +360,7 @@ impl<'a> G<'a> {
     }
     fn i18n_shape(&mut self) {
         let (s, g) = (self.subject(), self.graph());
-        let suffix = self.r.ps(&["en_ltr", "_rtl", "en", "", "en_", "_", "EN_ltr", "en_up", "en_ltr_x", "fr-be_rtl", "a b_ltr"]);
+        let suffix = self.r.ps(&["en_ltr", "_rtl", "en", "", "en_", "_", "EN_ltr", "en_up", "en_ltr_x", "fr-be_rtl", "a%20b_ltr"]);
         match suffix { "en_ltr" | "_rtl" | "fr-be_rtl" => self.tag("i18n datatype literal"), _ => self.tag(&format!("i18n datatype literal with unusual suffix {suffix:?}")) }
         let o = lit_dt("x", &format!("{I18N}{suffix}")); self.add(&s, &ex("p"), &o, &g);
     }
@@ -261,11 +381,11 @@ impl<'a> G<'a> {
 }
 fn shuffle<T>(v: &mut Vec<T>, r: &mut Rng) { for i in (1..v.len()).rev() { let j = r.below(i + 1); v.swap(i, j); } }
 
-fn gen_case(r: &mut Rng) -> (Vec<Q>, Vec<String>, Opts) {
+fn gen_case(r: &mut Rng, single: bool) -> (Vec<Q>, Vec<String>, Opts) {
     let opts = Opts { mode10: r.chance(1, 3), use_rdf_type: r.chance(1, 3), dir: [0, 0, 1, 2, 2][r.below(5)], spaces: if r.chance(1, 3) { 2 } else { 0 } };
     let mut g = G { r, q: vec![], tags: vec![], nb: 0 };
-    let k = g.r.below(3); g.noise(k);
-    for _ in 0..g.r.range(1, 3) {
+    let k = if single { 0 } else { g.r.below(3) }; g.noise(k);
+    for _ in 0..(if single { 1 } else { g.r.range(1, 3) }) {
         match g.r.below(12) { 0..=5 => g.list_shape(), 6 => g.type_shape(), 7 | 8 => g.compound_shape(), 9 => g.i18n_shape(), 10 => g.inexpressible(), _ => { let k = g.r.range(1, 4); g.noise(k) } }
     }
     let (mut q, tags) = (g.q, g.tags);
@@ -273,15 +393,23 @@ fn gen_case(r: &mut Rng) -> (Vec<Q>, Vec<String>, Opts) {
     (dedup(&q), tags, opts)
 }
 
-/// the property oracle: Some(description) when the round trip fails
+/// the property oracle: Some(description) when the round trip fails.  Two readers are applied to the
+/// emitted document: sophia's JsonLdParser (the property as stated) and the reference reader above.
+fn iso(expected: &Vec<Q>, back: &Vec<Q>) -> bool { isomorphic_datasets(expected, back).unwrap_or(false) }
 fn oracle(quads: &[Q], o: &Opts) -> Option<String> {
     let expected: Vec<Q> = quads.iter().filter(|q| expressible(q)).cloned().collect();
-    let txt = match serialise(quads, o) { Ok(t) => t, Err(e) => return Some(e) };
-    let back = match parse_back(&txt, o) { Ok(b) => dedup(&b), Err(e) => return Some(format!("{e}; document: {txt}")) };
-    match isomorphic_datasets(&expected, &back) {
-        Ok(true) => None,
-        Ok(false) => Some(format!("parsed back {} quads [{}] instead of {} (not isomorphic); document: {}", back.len(), show_ds(&back), expected.len(), txt.split_whitespace().collect::<Vec<_>>().join(" "))),
-        Err(e) => Some(format!("isomorphism error {e}")),
+    let txt = match serialise(quads, o) { Ok(t) => t, Err(e) => return Some(format!("SERIALIZER FAILS: {e}")) };
+    let flat = txt.split_whitespace().collect::<Vec<_>>().join(" ");
+    let reference = read_json(&txt).and_then(|j| reference_to_rdf(&j, o.dir)).map(|b| dedup(&b));
+    match &reference {
+        Err(e) => return Some(format!("SERIALIZER OUTPUT INVALID (reference reader): {e}; document: {flat}")),
+        Ok(back) if !iso(&expected, back) => return Some(format!("SERIALIZER LOSES INFORMATION (reference reader): read back {} quads [{}] instead of {}; document: {flat}", back.len(), show_ds(back), expected.len())),
+        _ => {}
+    }
+    match parse_back(&txt, o).map(|b| dedup(&b)) {
+        Err(e) => Some(format!("PARSER REJECTS a document the reference reader round-trips: {e}; document: {flat}")),
+        Ok(back) if !iso(&expected, &back) => Some(format!("PARSER DIVERGES from the reference reader: parsed back {} quads [{}] instead of {}; document: {flat}", back.len(), show_ds(&back), expected.len())),
+        _ => None,
     }
 }
 
@@ -295,11 +423,12 @@ fn main() {
     let mut by_tag: BTreeMap<String, (u64, u64, String)> = BTreeMap::new();
     for idx in range {
         let mut r = base.fork(idx as u64);
-        let (quads, tags, opts) = gen_case(&mut r);
+        let (quads, tags, opts) = gen_case(&mut r, a.rest.iter().any(|x| x == "--single"));
         let res = oracle(&quads, &opts);
         sum.evaluations += 1;
         for t in &tags { let e = by_tag.entry(t.clone()).or_default(); e.0 += 1; if let Some(d) = &res { e.1 += 1; if e.2.is_empty() { e.2 = format!("case {idx} [{}] {} => {d}", opts.show(), show_ds(&quads)); } } }
         if let Some(d) = &res {
+            if a.rest.iter().any(|x| x == "--verbose") { println!("FAIL {idx} {tags:?} [{}] {} => {d}", opts.show(), show_ds(&quads)); }
             sum.oracle_failures.push((idx.to_string(), format!("shapes {tags:?}; options {}; dataset: {} => {d}", opts.show(), show_ds(&quads))));
         }
         if a.only.is_some() { println!("CASE {idx}: {tags:?} {} :: {}\n => {:?}\n{}", opts.show(), show_ds(&quads), res, serialise(&quads, &opts).unwrap_or_default()); }
